@@ -190,3 +190,20 @@ func SolveNonce(h Block, want Block, n int, rest []byte) []byte {
 	out = append(out, rest...)
 	return out
 }
+
+// SealZeroAAD is Seal for additional data consisting of aadLen zero bytes, without materialising them: GHASH over
+// all-zero blocks keeps the accumulator at zero (Y_i = (Y_{i-1} xor 0)*H with Y_0 = 0), so only the length block knows
+// about the additional data.
+func SealZeroAAD(c Cipher, nonce, plaintext []byte, aadLen uint64, tagSize int) []byte {
+	h := H(c)
+	j0 := J0(h, nonce)
+	ct := GCTR(c, inc32(j0), plaintext)
+	s := pad16(ct)
+	var l [16]byte
+	binary.BigEndian.PutUint64(l[:8], aadLen*8)
+	binary.BigEndian.PutUint64(l[8:], uint64(len(ct))*8)
+	s = append(s, l[:]...)
+	g := GHash(h, s)
+	t := GCTR(c, j0, g[:])
+	return append(ct, t[:tagSize]...)
+}
